@@ -300,6 +300,21 @@ func (in *mgrInst) step(e mgrEvent, check bool) (vs []mc.Violation) {
 	case "select":
 		if check && prop == "C15" {
 			in.checkSelect(e, su, sok, bad)
+			// a selection must not depend on the selections made before it (state
+			// that the canonical form cannot see, e.g. something remembered per
+			// node): follow it, on the same instance, by a selection of every
+			// endpoint that has no local upstream - those move no cursor, so the
+			// explored state is unchanged on the unmodified tree
+			for _, e2 := range in.sys.Endpoints {
+				if len(in.members(e2)) > 0 {
+					continue
+				}
+				f := mgrEvent{Kind: "select", E: e2, Allow: true}
+				u2, ok2 := in.st.mgr.Select(e2, true)
+				in.checkSelect(f, u2, ok2, func(sig, format string, a ...any) {
+					bad(sig, "after "+e.String()+": "+format, a...)
+				})
+			}
 		}
 	}
 	if check && prop == "C05" {
